@@ -23,10 +23,17 @@ Fixpoint is_prefix (p l : list Z) : bool :=
   end.
 
 (* generic fold with failure *)
+(* A `desync` output is the model's monitor reporting that the ENVIRONMENT left its
+   contract (a kernel result that no kernel produces, a malformed script): the run ends
+   there and nothing after it is demanded. *)
+Definition is_desync (e : ev) : bool :=
+  match e with EOut l => String.eqb (fst l) "desync" | EIn _ => false end.
+
 Fixpoint check {S} (step : S -> ev -> option S) (s : S) (t : list ev) : bool :=
   match t with
   | [] => true
-  | e :: r => match step s e with Some s' => check step s' r | None => false end
+  | e :: r => if is_desync e then true else
+              match step s e with Some s' => check step s' r | None => false end
   end.
 
 (* ------------------------------------------------------------------ *)
@@ -56,17 +63,22 @@ Definition lifecycle_ok (t : list ev) : bool := check lc_step [] t.
    registration requests) until the loop closes them; listeners and the eventfd
    are owned for the whole run.  `last` remembers the call whose result is next. *)
 
-Record fdst := mkFd {
+Record fdst := mkFd0 {
   f_owned : list Z;
   f_static : list Z;           (* eventfd and listeners *)
   f_last : option (string * Z);   (* pending call: name, fd *)
+  f_dead : bool;               (* the kernel broke its contract (handed out a descriptor twice) *)
 }.
+Definition mkFd (o st : list Z) (l : option (string * Z)) : fdst := mkFd0 o st l false.
 
 Definition zmem (x : Z) (l : list Z) : bool := existsb (fun y => x =? y) l.
 Definition zrem (x : Z) (l : list Z) : list Z := filter (fun y => negb (x =? y)) l.
 
 Definition fd_step (s : fdst) (e : ev) : option fdst :=
   let owns fd := zmem fd (f_owned s) || zmem fd (f_static s) in
+  let fresh fd := if owns fd then mkFd0 (f_owned s) (f_static s) None true
+                  else mkFd (fd :: f_owned s) (f_static s) (f_last s) in
+  if f_dead s then Some s else
   match e with
   | EOut ("sys", ASym name :: AInt fd :: rest) =>
       if sym_eqb name "epctl" then Some s    (* shape: epctl <op> <fd> .. handled below *)
@@ -78,13 +90,13 @@ Definition fd_step (s : fdst) (e : ev) : option fdst :=
       | Some (nm, fd) =>
           if sym_eqb nm "close" then Some (mkFd (zrem fd (f_owned s)) (f_static s) None)
           else if sym_eqb nm "accept" && (0 <=? n) then
-            if owns n then None       (* the kernel never returns a descriptor that is still open *)
-            else Some (mkFd (n :: f_owned s) (f_static s) None)
+            (* the kernel never returns a descriptor that is still open *)
+            Some (let s' := fresh n in mkFd0 (f_owned s') (f_static s') None (f_dead s'))
           else Some (mkFd (f_owned s) (f_static s) None)
       | None => Some s
       end
-  | EIn ("accepted", [AInt fd]) => Some (mkFd (fd :: f_owned s) (f_static s) (f_last s))
-  | EIn ("enroll", AInt fd :: _) => Some (mkFd (fd :: f_owned s) (f_static s) (f_last s))
+  | EIn ("accepted", [AInt fd]) => Some (fresh fd)
+  | EIn ("enroll", AInt fd :: _) => Some (fresh fd)
   | _ => Some s
   end.
 
@@ -96,7 +108,7 @@ Definition fd_ok (static : list Z) (t : list ev) : bool :=
 Definition fd_step_stale (s : fdst) (e : ev) : option fdst :=
   match e with
   | EOut ("sys", [ASym "epctl"; ASym "del"; AInt fd; _; _]) =>
-      Some (mkFd (f_owned s) (f_static s) (Some ("epctl", fd)))
+      Some (mkFd0 (f_owned s) (f_static s) (Some ("epctl", fd)) (f_dead s))
   | _ => fd_step s e
   end.
 
@@ -209,6 +221,8 @@ Definition udp_step (listeners : list Z) (s : udpst) (e : ev) : option udpst :=
           else None
       | None => None
       end
+  | EOut ("g", [ASym "udpconn"; AInt _; _]) =>       (* datagram of a connected client socket *)
+      Some (mkU None (u_cur s) (u_seen s) (u_want_send s))
   | EOut ("cb", _) =>
       match u_pending s with Some _ => None | None => Some s end
   | EOut ("hr", AInt cid :: ASym call :: vals) =>
